@@ -183,6 +183,7 @@ class Contract:
         self.result_type = result_type
         self.assumed_asserts = assumed_asserts or []
         self.pure = pure
+        self.generator = False                # True: the function is a generator (call sites receive a one-shot iterable)
         self.trusted = trusted                # True: assumed contract (dependency / not verified against a body)
         self.defaults = defaults or {}
         self.properties = tuple(properties)
